@@ -935,8 +935,51 @@ example :
     thereby a theorem about the code's pass, read over `taken cfg bound P`. -/
 theorem pass_is_cycle_over_taken (cfg : Cfg) (bound : Id → Bool) (P : Store) (now now1 : Tick)
     (exec : Id → Nat → Outcome) :
-    cycleB cfg bound P now now1 exec = cycle cfg (taken cfg bound P) now now1 exec :=
-  cycleB_eq_cycle_taken cfg bound P now now1 exec
+    ((cfg.reason == "free") = false →
+      cycleB cfg bound P now now1 exec = cycle cfg (taken cfg bound P) now now1 exec) ∧
+    (cycleB cfg bound P now now1 exec).invoked = (cycle cfg (taken cfg bound P) now now1 exec).invoked ∧
+    (cycleB cfg bound P now now1 exec).closed = (cycle cfg (taken cfg bound P) now now1 exec).closed ∧
+    (cycleB cfg bound P now now1 exec).delays = (cycle cfg (taken cfg bound P) now now1 exec).delays :=
+  ⟨cycleB_eq_cycle_taken cfg bound P now now1 exec, cycleB_invoked_closed cfg bound P now now1 exec⟩
+
+/-- THE FREE PASS (/repo 40d09eb, formerly C03-N4): an object in deletion that the own finalizer does not hold and somebody
+    else's does. The pass invokes nothing and closes nothing, and removes every progress record of an owned handler
+    that is present — and, by those records' `subrefs`, the records of their sub-handlers; nothing else is touched. -/
+theorem free_pass_purges (cfg : Cfg) (bound : Id → Bool) (P : Store) (now now1 : Tick) (exec : Id → Nat → Outcome)
+    (hf : cfg.reason = "free") :
+    (cycleB cfg bound P now now1 exec).invoked = [] ∧ (cycleB cfg bound P now now1 exec).closed = false ∧
+    (cycleB cfg bound P now now1 exec).delays = [] ∧
+    (∀ i ∈ cfg.owned, (cycleB cfg bound P now now1 exec).P' i = none) ∧
+    (∀ i ∈ allSubrefs (fromStorage P cfg.owned) cfg.owned, (cycleB cfg bound P now now1 exec).P' i = none) ∧
+    (∀ i, i ∉ cfg.owned → i ∉ allSubrefs (fromStorage P cfg.owned) cfg.owned →
+      (cycleB cfg bound P now now1 exec).P' i = P i) := by
+  have hf' : (cfg.reason == "free") = true := by rw [hf]; decide
+  rw [cycleB_free cfg bound P now now1 exec hf']
+  refine ⟨rfl, rfl, rfl, ?_, ?_, ?_⟩
+  · intro i ho; simp [purge, ho]
+  · intro i hi; simp [purge, hi]
+  · intro i ho hs
+    have h2 : (cfg.owned.any fun k => k == i && (fromStorage P cfg.owned k).isSome) = false := by
+      rw [List.any_eq_false]
+      intro k hk
+      by_cases hki : k = i
+      · subst hki; exact absurd hk ho
+      · simp [hki]
+    simp [purge, ho, hs, h2]
+
+-- non-vacuity: the records of a retrying update handler and of its sub-handler are on an object that has become FREE;
+-- before 40d09eb (`cycle`, which has the no-op purge only) they stayed
+example :
+    let recOf (subs : List Id) : Rec :=
+      { started := 192, delayed := some 704, purpose := some "update", retries := 1, success := false, failure := false, subrefs := subs }
+    let P : Store := fun i => if i = "u" then some (recOf ["u/a"]) else if i = "u/a" then some (recOf []) else
+      if i = "foreign" then some (recOf []) else none
+    let cfg : Cfg := { owned := ["u", "d"], selected := [], limits := fun _ => ⟨none, none⟩, reason := "free", lifecycle := .asap }
+    (cycleB cfg (fun _ => true) P 320 320 (fun _ _ => okOutcome)).P' "u" = none ∧
+    (cycleB cfg (fun _ => true) P 320 320 (fun _ _ => okOutcome)).P' "u/a" = none ∧
+    (cycleB cfg (fun _ => true) P 320 320 (fun _ _ => okOutcome)).P' "foreign" = P "foreign" ∧
+    (cycle cfg P 320 320 (fun _ _ => okOutcome)).P' "u" = P "u" := by
+  refine ⟨by decide, by decide, by decide, by decide⟩
 
 /-- What is taken over and what is not: a record is left out exactly when the cause has a handler reason, the id is a
     selected handler with a reason of its own, and the record carries another cause's purpose. -/
@@ -972,7 +1015,7 @@ theorem no_rerun_own (cfg : Cfg) (bound : Id → Bool) (P : Store) (now now1 : T
     (i : Id) (n : Nat) (r : Rec) (hP : P i = some r) (hfin : r.finished = true)
     (hown : bound i = false ∨ r.purpose = none ∨ r.purpose = some cfg.reason) :
     (i, n) ∉ (cycleB cfg bound P now now1 exec).invoked := by
-  rw [cycleB_eq_cycle_taken]
+  rw [(cycleB_invoked_closed cfg bound P now now1 exec).1]
   exact no_rerun cfg _ now now1 exec hsub i n r (taken_own hP hown) hfin
 
 /-- A handler still due is invoked with `retry` = the attempts on the record TAKEN OVER: its own recorded attempts,
@@ -981,7 +1024,7 @@ theorem retry_kwarg_taken (cfg : Cfg) (bound : Id → Bool) (P : Store) (now now
     (hsub : ∀ i ∈ cfg.selected, i ∈ cfg.owned)
     (i : Id) (n : Nat) (h : (i, n) ∈ (cycleB cfg bound P now now1 exec).invoked) :
     n = (match taken cfg bound P i with | some r => r.retries | none => 0) := by
-  rw [cycleB_eq_cycle_taken] at h
+  rw [(cycleB_invoked_closed cfg bound P now now1 exec).1] at h
   exact retry_kwarg cfg _ now now1 exec hsub i n h
 
 /-- Only selected handlers are invoked, never one whose OWN record sleeps. -/
@@ -989,7 +1032,7 @@ theorem invoked_selected_awake_taken (cfg : Cfg) (bound : Id → Bool) (P : Stor
     (exec : Id → Nat → Outcome) (hsub : ∀ i ∈ cfg.selected, i ∈ cfg.owned)
     (i : Id) (n : Nat) (h : (i, n) ∈ (cycleB cfg bound P now now1 exec).invoked) :
     i ∈ cfg.selected ∧ ∀ r d, taken cfg bound P i = some r → r.delayed = some d → d ≤ now := by
-  rw [cycleB_eq_cycle_taken] at h
+  rw [(cycleB_invoked_closed cfg bound P now now1 exec).1] at h
   exact invoked_selected_awake cfg _ now now1 exec hsub i n h
 
 /-- THE REPAIR OF C03-N3 (f7d6401), for every lifecycle: a handler declared for the current reason does NOT inherit
@@ -1023,7 +1066,7 @@ theorem namesake_not_inherited (cfg : Cfg) (bound : Id → Bool) (P : Store) (no
     (i, 0) ∈ (cycleB cfg bound P now now1 exec).invoked := by
   have ht : taken cfg bound P i = none :=
     taken_namesake hr (hsub i hs) hs hb hP (by simp [Rec.foreignTo, hpn, hpr])
-  rw [cycleB_eq_cycle_taken]
+  rw [cycleB_eq_cycle_taken_of_handler cfg bound P now now1 exec hr]
   have hsr : ∀ ex, startRec cfg (taken cfg bound P) now ex i = fresh now cfg.reason := by
     intro ex; unfold startRec; rw [ht]
   have := due_invoked_all_at_once cfg (taken cfg bound P) now now1 exec hr hlc i hs (hsub i hs)
@@ -1038,7 +1081,7 @@ theorem closed_iff_all_finished_taken (cfg : Cfg) (bound : Id → Bool) (P : Sto
     (hr : handlerReasons.contains cfg.reason = true) (hne : cfg.selected.isEmpty = false) :
     (cycleB cfg bound P now now1 exec).closed = true ↔
       ∀ i ∈ cfg.selected, ∃ h, postState cfg (taken cfg bound P) now now1 exec i = some h ∧ h.r.finished = true := by
-  rw [cycleB_eq_cycle_taken]
+  rw [cycleB_eq_cycle_taken_of_handler cfg bound P now now1 exec hr]
   exact closed_iff_all_finished cfg _ now now1 exec hsub hr hne
 
 /-- When the whole pass closes the cycle (or ends it because nothing is selected), no progress record of any owned
@@ -1047,7 +1090,7 @@ theorem closed_purges_whole (cfg : Cfg) (bound : Id → Bool) (P : Store) (now n
     (hr : handlerReasons.contains cfg.reason = true)
     (hc : (cycleB cfg bound P now now1 exec).closed = true) :
     ∀ i ∈ cfg.owned, (cycleB cfg bound P now now1 exec).P' i = none := by
-  rw [cycleB_eq_cycle_taken] at hc ⊢
+  rw [cycleB_eq_cycle_taken_of_handler cfg bound P now now1 exec hr] at hc ⊢
   cases he : cfg.selected.isEmpty
   · exact closed_purges cfg _ now now1 exec hr he hc
   · exact (closed_purges_skip cfg _ now now1 exec hr he).2
@@ -1067,7 +1110,7 @@ theorem namesake_record_overwritten (cfg : Cfg) (bound : Id → Bool) (P : Store
     cases hl : cfg.selected with
     | nil => rw [hl] at hs; cases hs
     | cons _ _ => rfl
-  rw [cycleB_eq_cycle_taken] at hopen ⊢
+  rw [cycleB_eq_cycle_taken_of_handler cfg bound P now now1 exec hr] at hopen ⊢
   rw [cycle_main cfg _ now now1 exec hr hne] at hopen ⊢
   simp only at hopen
   simp only [hopen, Bool.false_eq_true, if_false]
@@ -1098,8 +1141,11 @@ theorem final_outcome_recorded_whole (cfg : Cfg) (bound : Id → Bool) (P : Stor
     (hinv : (i, n) ∈ (cycleB cfg bound P now now1 exec).invoked)
     (hfin : (exec i n).final = true) (hc : (cycleB cfg bound P now now1 exec).closed = false) :
     ∃ r', (cycleB cfg bound P now now1 exec).P' i = some r' ∧ r'.finished = true := by
-  rw [cycleB_eq_cycle_taken] at hinv hc ⊢
-  exact final_outcome_recorded cfg _ now now1 exec i n hinv hfin hc
+  cases hf : (cfg.reason == "free")
+  · rw [cycleB_eq_cycle_taken cfg bound P now now1 exec hf] at hinv hc ⊢
+    exact final_outcome_recorded cfg _ now now1 exec i n hinv hfin hc
+  · rw [cycleB_free cfg bound P now now1 exec hf] at hinv
+    cases hinv
 
 /-- The passes of the whole pass chained, as `invokedSeq` -/
 def invokedSeqB (cfg : Cfg) (bound : Id → Bool) : Store → List Step → List (List (Id × Nat))
@@ -1111,34 +1157,37 @@ def invokedSeqB (cfg : Cfg) (bound : Id → Bool) : Store → List Step → List
 /-- Within one handling cycle (no cause supersedes it: `NoExtras`) nothing is ever left out: the whole pass IS
     `cycle`, pass after pass. -/
 theorem invokedSeqB_eq (cfg : Cfg) (bound : Id → Bool) (hsub : ∀ i ∈ cfg.selected, i ∈ cfg.owned)
+    (hr : handlerReasons.contains cfg.reason = true)
     (steps : List Step) : ∀ (P : Store), NoExtras cfg P → invokedSeqB cfg bound P steps = invokedSeq cfg P steps := by
   induction steps with
   | nil => intro P _; rfl
   | cons s rest ih =>
     intro P hne
     simp only [invokedSeqB, invokedSeq]
-    rw [cycleB_of_noExtras cfg bound P s.now s.now1 s.exec hne]
+    rw [cycleB_of_noExtras cfg bound P s.now s.now1 s.exec (not_free_of_handler hr) hne]
     rw [ih _ (noExtras_preserved cfg P s.now s.now1 s.exec hsub hne)]
 
 /-- Across any number of passes of the whole pass, restarts and intervening events, a handler recorded as finished is
     not invoked again while the handling cycle is open. -/
 theorem finished_never_invoked_whole (cfg : Cfg) (bound : Id → Bool) (hsub : ∀ i ∈ cfg.selected, i ∈ cfg.owned)
+    (hr : handlerReasons.contains cfg.reason = true)
     (steps : List Step) (P : Store) (hne : NoExtras cfg P)
     (i : Id) (r : Rec) (ho : i ∈ cfg.owned) (hP : P i = some r) (hfin : r.finished = true) :
     ∀ l ∈ invokedSeqB cfg bound P steps, ∀ n, (i, n) ∉ l := by
-  rw [invokedSeqB_eq cfg bound hsub steps P hne]
+  rw [invokedSeqB_eq cfg bound hsub hr steps P hne]
   exact finished_never_invoked cfg hsub steps P hne i r ho hP hfin
 
 /-- Hence at most one final outcome per handler per handling cycle — also right after a superseding cause: the FIRST
     pass may be the one that leaves namesakes out (no `NoExtras` on `P`); whatever it records is of this cause's
     purpose, and from then on nothing is left out. -/
 theorem once_per_cycle_whole (cfg : Cfg) (bound : Id → Bool) (hsub : ∀ i ∈ cfg.selected, i ∈ cfg.owned)
+    (hr : handlerReasons.contains cfg.reason = true)
     (P : Store) (hne : NoExtras cfg (taken cfg bound P)) (s : Step) (rest : List Step)
     (i : Id) (n : Nat) (hinv : (i, n) ∈ (cycleB cfg bound P s.now s.now1 s.exec).invoked)
     (hfin : (s.exec i n).final = true) (hc : (cycleB cfg bound P s.now s.now1 s.exec).closed = false) :
     ∀ l ∈ invokedSeqB cfg bound (cycleB cfg bound P s.now s.now1 s.exec).P' rest, ∀ m, (i, m) ∉ l := by
-  rw [cycleB_eq_cycle_taken] at hinv hc ⊢
-  rw [invokedSeqB_eq cfg bound hsub rest _ (noExtras_preserved cfg _ s.now s.now1 s.exec hsub hne)]
+  rw [cycleB_eq_cycle_taken_of_handler cfg bound P s.now s.now1 s.exec hr] at hinv hc ⊢
+  rw [invokedSeqB_eq cfg bound hsub hr rest _ (noExtras_preserved cfg _ s.now s.now1 s.exec hsub hne)]
   exact once_per_cycle cfg hsub _ hne s rest i n hinv hfin hc
 
 /-- REGRESSION of C03-N3 (repaired by /repo f7d6401). One id `h` registered for update AND deletion, a sibling `u2`
